@@ -458,8 +458,10 @@ def run_candidate(c):
                 os.makedirs(sub, exist_ok=True)
                 open(os.path.join(sub, "f.st"), "wb").write(encs[en](text))
                 res = {}
-                for cmd in ("check", "tokenize"):
+                for cmd in ("check", "tokenize", "echo"):
                     rc, so, se = run(binp, [cmd, "f.st"], sub)
+                    if cmd == "echo":
+                        so = ""     # the rendered program is not compared here (C10); status, codes and positions are
                     plain = ANSI.sub("", so + se)
                     if rc not in (0, 1):
                         bad.append("%s of the %s file: crash/abnormal exit %s" % (cmd, en, rc))
